@@ -1,5 +1,6 @@
 import TongoProofs.Lemmas.BocTotal
 import TongoProofs.Lemmas.BocHash
+import TongoProofs.Lemmas.BocToString
 import TongoGen.BocHeader
 import TongoProofs.Lemmas.GenTiesA
 /-! Property C07 — parsing untrusted bag-of-cells bytes never crashes and yields sound cells.
@@ -63,6 +64,20 @@ theorem hash_no_panic (bs : Bytes) (h : bs.length < two63) (t : Table) (roots : 
   intro r _ fuel c hc
   have hs := parse_sound bs h t roots hp
   exact reprHash_no_panic H c (unfold_treeOK t hs.1 fuel r c hc)
+
+/-- Printing is bounded by the visit budget: `Cell.ToString()` of any root of a parse result (model `Str.toStringOut`
+of `toStringImpl` with its `*iterationsLimit`) emits at most 4 · 65536 + 1 lines — also for a DAG whose unfolding has
+millions of nodes. (Every expanded cell costs one unit of the 65536 budget and prints at most 4 children; the bound
+65536 + 1 does not hold: children reached with an exhausted budget are still printed, one line each.) -/
+theorem toString_bounded (bs : Bytes) (h : bs.length < two63) (t : Table) (roots : List Nat)
+    (hp : parseBoc bs = .ok (t, roots)) (fuel r : Nat) :
+    (Str.toStringOut t fuel r).lines ≤ 4 * Str.bocSizeLimit + 1 := by
+  have hs := parse_sound bs h t roots hp
+  apply Str.toString_lines_le
+  intro i
+  by_cases hi : i < t.size
+  · rw [getElem!_pos t i hi]; exact (hs.1 i hi).refs_le
+  · rw [getElem!_neg t i hi]; exact Nat.zero_le _
 
 /-- The theorems are not vacuous (a test on one literal, not a proof of anything general): a two-cell bag of cells
 whose root refers twice to the same child is accepted, with two rows and root 0. -/
